@@ -245,8 +245,16 @@ def check(case):
             try:
                 if g2 is None:
                     raise StopIteration
+                t2_before = str(g2)
                 g2.merge_linear_paths()
                 t2 = str(g2)
+                # the same GFA2 graph with every alignment left out ('*'): the positions of an edge still say how long the overlap is, the merge is the same
+                def no_alignment(text):
+                    return ["\t".join(f[:8] + ["*"] + f[9:]) if f[0] == "E" else "\t".join(f) for f in (x.split("\t") for x in text.split("\n") if x)]
+                g2s = gfapy.Gfa("\n".join(no_alignment(t2_before)), vlevel=3)          # (same lines in the same order)
+                g2s.merge_linear_paths()
+                if sorted(no_alignment(str(g2s))) != sorted(no_alignment(t2)):
+                    fail("gfa2-merge-without-alignments-differs", "with CIGARs: %s; with '*': %s" % (no_alignment(t2), no_alignment(str(g2s))))
                 back = gfapy.Gfa(t2, vlevel=3).to_gfa1()            # level 3: every position of every edge is checked against its segment
                 bs, bl = graph_of(back)
                 if (bs, strip_cigar(bl)) != (gs, strip_cigar(gl)):
